@@ -25,12 +25,14 @@ RULE = ("streams of 1-4 frames drawn from {valid, undecodable (a byte >= 128), a
         "limit-1-seplen and of limit), oversized} in every order, optionally followed by an unterminated tail; limits "
         "4..40; separators of 1-3 bytes incl. self-overlapping; AutoSeparated test subclass with an ascii-only "
         "deserialize and StringLineSerializer(ascii); copying and buffer-filling consumer (size hints 1..64); every "
-        "chunking of streams <= 10 bytes, every single cut, cut pairs around frame/limit boundaries, byte-by-byte. "
+        "chunking of streams <= 10 bytes, every single cut, cut pairs around frame/limit boundaries, byte-by-byte; raw JSON "
+        "streams of valid / balanced-but-undecodable documents (limit 200, and limits 10-16 with whitespace runs between the "
+        "documents); protocols with a converter (accepted / rejected / undecodable frames, both consumers). "
         "Non-trivial = contains a malformed or unsafe frame followed by a later frame, or a cut inside a separator.")
 TRUSTED = c07.TRUSTED
 ASSUMPTIONS = ["inner codec = ascii check (decode fails iff a byte >= 128): the framing logic under test does not depend on it",
-               "theorems are stated for the safe band payload + separator < limit; resynchronisation after a size error "
-               "is checked by the oracle + correspondence (no Coq theorem yet: see DESIGN C02)"]
+               "chunk-independence theorems are stated for the safe band payload + separator < limit; resynchronisation after "
+               "a size error is a theorem on both paths (resync_after_overrun_copying / _buffered) for a rest within the band"]
 
 KINDS = ("valid", "bad", "atlimit", "over")
 
